@@ -67,9 +67,9 @@ func RightTrim(p parsley.Parser, wsMode WsMode) parser.Func {
 					err = parsley.NewError(errPos, err.Cause())
 				}
 			}
-			return res, cp, err
 		}
 
+		// a result is trimmed also when it came together with an error (e.g. the empty match of Optional)
 		if res != nil {
 			var wsErr parsley.Error
 			res = ast.SetReaderPos(res, func(pos parsley.Pos) parsley.Pos {
@@ -81,7 +81,7 @@ func RightTrim(p parsley.Parser, wsMode WsMode) parser.Func {
 			}
 		}
 
-		return res, cp, nil
+		return res, cp, err
 	}
 }
 
